@@ -20,9 +20,11 @@ import Sbepp.Schema.Ast
 import Sbepp.Schema.Resolve
 import Sbepp.Spec.Optional
 import Sbepp.Extracted.Tables
+import Sbepp.Extracted.Templates
 
 namespace Sbepp.Gen.Literals
 open Sbepp Sbepp.Schema
+open Sbepp.Extracted
 
 /-! ## Verdicts -/
 
@@ -212,6 +214,17 @@ def IntLit.text (l : IntLit) : List Char :=
 
 def int64MinDigits : List Char := "9223372036854775807".toList
 
+/-- the digits part of `utils::strip_leading_zeros`: superfluous leading zeros are dropped, a text of zeros
+    keeps its last character -/
+def stripZeros (ds : List Char) : List Char :=
+  match ds.dropWhile (· == '0') with
+  | [] => (match ds.getLast? with | some c => [c] | none => [])
+  | r => r
+
+/-- how `to_integer_literal` pastes the digits of a value: through `strip_leading_zeros` when
+    `Extracted.Templates.stripsLeadingZeros` says the generator does so, as written otherwise -/
+def pastedDigits (ds : List Char) : List Char := if Templates.stripsLeadingZeros then stripZeros ds else ds
+
 /-- `utils::to_integer_literal(value, type)`; `value` was accepted for `type` -/
 def toIntegerLiteral (p : Prim) (cs : List Char) : IntLit :=
   match cs with
@@ -221,27 +234,32 @@ def toIntegerLiteral (p : Prim) (cs : List Char) : IntLit :=
       | some n =>
         -- `*v < min_signed_literal` : format `"{} {}"` of −9223372036854775807 and the (negative) difference
         if 9223372036854775807 < n then ⟨true, int64MinDigits, false, some (natDigits (n - 9223372036854775807))⟩
-        else ⟨true, ds, false, none⟩
-      | none => ⟨true, ds, false, none⟩
-    else ⟨true, ds, false, none⟩
+        else ⟨true, pastedDigits ds, false, none⟩
+      | none => ⟨true, pastedDigits ds, false, none⟩
+    else ⟨true, pastedDigits ds, false, none⟩
   | _ =>
     if p == .uint64 then
       match decimal cs with
-      | some n => ⟨false, cs, decide (9223372036854775807 < n), none⟩
-      | none => ⟨false, cs, false, none⟩
-    else ⟨false, cs, false, none⟩
+      | some n => ⟨false, pastedDigits cs, decide (9223372036854775807 < n), none⟩
+      | none => ⟨false, pastedDigits cs, false, none⟩
+    else ⟨false, pastedDigits cs, false, none⟩
 
 /-- `utils::numeric_literal_to_value` for `float` / `double`: the special values become
-    `numeric_limits` members, everything else is pasted as written -/
+    `numeric_limits` members, everything else is pasted -/
 inductive FpRendered
   | special (s : FpSpecial)
   | pasted (cs : List Char)
   deriving Repr, DecidableEq
 
+/-- `value.find_first_of(".eE") == npos` -/
+def noDotExp (cs : List Char) : Bool := cs.all (fun c => !(c == '.' || c == 'e' || c == 'E'))
+
 def renderFp (cs : List Char) : FpRendered :=
   match fpSpecial? cs with
   | some s => .special s
-  | none => .pasted cs
+  | none =>
+    -- an integer-looking text gets `.0` (when `Extracted.Templates.floatDotZero` says the generator does so)
+    if Templates.floatDotZero && noDotExp cs then .pasted (cs ++ ['.', '0']) else .pasted cs
 
 /-! ## What C++ reads -/
 
@@ -284,64 +302,120 @@ def bracedInt (p : Prim) (v : Int) : Bool :=
 
 /-! ### String and character literals -/
 
-def isSimpleEscape (c : Char) : Bool :=
-  c == '\'' || c == '"' || c == '?' || c == '\\' || c == 'a' || c == 'b' || c == 'f' || c == 'n' || c == 'r' ||
-  c == 't' || c == 'v'
-
 def isOctDigit (c : Char) : Bool := '0' ≤ c ∧ c ≤ '7'
 def isHexDigit (c : Char) : Bool := c.isDigit || ('a' ≤ c ∧ c ≤ 'f') || ('A' ≤ c ∧ c ≤ 'F')
 
-/-- trigraph replacement of the one sequence that matters inside a literal: `??/` is a backslash -/
-def deTrigraph : List Char → List Char
-  | '?' :: '?' :: '/' :: rest => '\\' :: deTrigraph rest
-  | c :: rest => c :: deTrigraph rest
-  | [] => []
+def hexVal (c : Char) : Nat :=
+  if c.isDigit then c.toNat - 48 else if 'a' ≤ c ∧ c ≤ 'f' then c.toNat - 87 else c.toNat - 55
 
-/-- lexer state inside a literal: ordinary characters, directly after a backslash, after `\\x` -/
-inductive LexSt | normal | esc | hex
+/-- what a simple escape sequence `\c` denotes -/
+def simpleEscape? (c : Char) : Option Char :=
+  if c == '\'' then some '\'' else if c == '"' then some '"' else if c == '?' then some '?'
+  else if c == '\\' then some '\\' else if c == 'a' then some (Char.ofNat 7) else if c == 'b' then some (Char.ofNat 8)
+  else if c == 'f' then some (Char.ofNat 12) else if c == 'n' then some '\n' else if c == 'r' then some '\r'
+  else if c == 't' then some '\t' else if c == 'v' then some (Char.ofNat 11) else none
+
+/-- trigraph replacement of the one sequence that matters inside a literal: `??/` is a backslash.
+    `n` question marks are pending -/
+def deTriAux : Nat → List Char → List Char
+  | n, [] => List.replicate n '?'
+  | 0, c :: r => if c == '?' then deTriAux 1 r else c :: deTriAux 0 r
+  | 1, c :: r => if c == '?' then deTriAux 2 r else '?' :: c :: deTriAux 0 r
+  | _ + 2, c :: r =>
+    if c == '/' then '\\' :: deTriAux 0 r
+    else if c == '?' then '?' :: deTriAux 2 r
+    else '?' :: '?' :: c :: deTriAux 0 r
+
+def deTrigraph (l : List Char) : List Char := deTriAux 0 l
+
+/-- lexer state inside a literal: ordinary characters; directly after a backslash; after one / two octal
+    digits (value so far); after `\x` without / with digits -/
+inductive DSt
+  | normal | esc | oct1 (v : Nat) | oct2 (v : Nat) | hex0 | hex (v : Nat)
   deriving DecidableEq, Repr
 
-/-- lex the characters between the quotes of a string (`q = '"'`) or character (`q = '\''`) literal.
-    `bad`: the literal ends early or never ends; `changed`: an escape sequence is read -/
-def lexAux (q : Char) : LexSt → List Char → Verdict → Verdict
-  | .normal, [], acc => acc
-  | .esc, [], _ => .bad                              -- the backslash escapes the closing quote
-  | .hex, [], _ => .bad
+/-- the characters a string (`q = '"'`) or character (`q = '\''`) literal with the given text between its
+    quotes denotes; `none`: the literal ends early, never ends, or contains an ill-formed escape sequence.
+    `acc` collects the denoted characters in reverse -/
+def denoteAux (q : Char) : DSt → List Char → List Char → Option (List Char)
+  | .normal, [], acc => some acc.reverse
+  | .esc, [], _ => none                               -- the backslash escapes the closing quote
+  | .oct1 v, [], acc => some (Char.ofNat v :: acc).reverse
+  | .oct2 v, [], acc => some (Char.ofNat v :: acc).reverse
+  | .hex0, [], _ => none
+  | .hex v, [], acc => some (Char.ofNat v :: acc).reverse
   | .normal, c :: rest, acc =>
-    if c == '\\' then lexAux q .esc rest acc
-    else if c == q || c == '\n' then .bad
-    else lexAux q .normal rest acc
-  | .esc, c :: rest, _ =>
-    if isSimpleEscape c || isOctDigit c then lexAux q .normal rest .changed
-    else if c == 'x' then lexAux q .hex rest .changed
-    else if c == 'u' || c == 'U' then .bad           -- universal-character-names need 4 / 8 hex digits: not produced
-    else if c == '\n' then .bad
-    else lexAux q .normal rest .changed              -- unknown escape: accepted with a warning, the backslash is dropped
-  | .hex, c :: rest, _ => if isHexDigit c then lexAux q .normal rest .changed else .bad
+    if c == '\\' then denoteAux q .esc rest acc
+    else if c == q || c == '\n' then none
+    else denoteAux q .normal rest (c :: acc)
+  | .esc, c :: rest, acc =>
+    if isOctDigit c then denoteAux q (.oct1 (c.toNat - 48)) rest acc
+    else
+      match simpleEscape? c with
+      | some d => denoteAux q .normal rest (d :: acc)
+      | none =>
+        if c == 'x' then denoteAux q .hex0 rest acc
+        else if c == 'u' || c == 'U' || c == '\n' then none   -- universal-character-names are not produced
+        else denoteAux q .normal rest (c :: acc)             -- unknown escape: accepted with a warning
+  | .oct1 v, c :: rest, acc =>
+    if isOctDigit c then denoteAux q (.oct2 (v * 8 + (c.toNat - 48))) rest acc
+    else if c == '\\' then denoteAux q .esc rest (Char.ofNat v :: acc)
+    else if c == q || c == '\n' then none
+    else denoteAux q .normal rest (c :: Char.ofNat v :: acc)
+  | .oct2 v, c :: rest, acc =>
+    if isOctDigit c then denoteAux q .normal rest (Char.ofNat (v * 8 + (c.toNat - 48)) :: acc)
+    else if c == '\\' then denoteAux q .esc rest (Char.ofNat v :: acc)
+    else if c == q || c == '\n' then none
+    else denoteAux q .normal rest (c :: Char.ofNat v :: acc)
+  | .hex0, c :: rest, acc => if isHexDigit c then denoteAux q (.hex (hexVal c)) rest acc else none
+  | .hex v, c :: rest, acc =>
+    if isHexDigit c then denoteAux q (.hex (v * 16 + hexVal c)) rest acc
+    else if c == '\\' then denoteAux q .esc rest (Char.ofNat v :: acc)
+    else if c == q || c == '\n' then none
+    else denoteAux q .normal rest (c :: Char.ofNat v :: acc)
 
-def lexBody (q : Char) (cs : List Char) (acc : Verdict) : Verdict := lexAux q .normal cs acc
+def denote (q : Char) (body : List Char) : Option (List Char) := denoteAux q .normal body []
 
-/-- lex `"text"` followed by `pad` times `\0`; escape sequences of the padding are intended -/
-def lexText (trigraphs : Bool) (text : List Char) (pad : Nat) : Verdict :=
-  let t := if trigraphs then deTrigraph text else text
-  match lexBody '"' (t ++ (List.replicate pad ['\\', '0']).flatten) .ok with
-  | .bad => .bad
-  | v => if t.any (· == '\\') then v else .ok
+/-- the digit `k` (below 8) as a character -/
+def digitChar (k : Nat) : Char := Char.ofNat (48 + k)
 
-/-- `"text"` (plus `pad` times `\0`) under both treatments of trigraphs -/
+/-- `fmt::format("{:03o}", n)` for `n < 512` -/
+def octal3 (n : Nat) : List Char := [digitChar (n / 64 % 8), digitChar (n / 8 % 8), digitChar (n % 8)]
+
+/-- one iteration of `utils::escape_literal` -/
+def escapeChar (c : Char) : List Char :=
+  if c == '"' then ['\\', '"'] else if c == '\'' then ['\\', '\''] else if c == '\\' then ['\\', '\\']
+  else if c == '?' then ['\\', '?'] else if c == '\n' then ['\\', 'n'] else if c == '\r' then ['\\', 'r']
+  else if c == '\t' then ['\\', 't']
+  else if c.toNat < 0x20 then '\\' :: octal3 c.toNat
+  else [c]
+
+/-- `utils::escape_literal` -/
+def escapeLiteral (cs : List Char) : List Char := cs.flatMap escapeChar
+
+/-- schema text as it is pasted between quotes: through `escape_literal` when
+    `Extracted.Templates.escapesLiterals` says every site does so, as written otherwise -/
+def pastedText (cs : List Char) : List Char := if Templates.escapesLiterals then escapeLiteral cs else cs
+
+/-- the `\0` padding of a string constant -/
+def padding (pad : Nat) : List Char := (List.replicate pad ['\\', '0']).flatten
+
+/-- verdict of a literal with `body` between its quotes that is meant to denote `expected`, with and without
+    trigraph replacement -/
+def literalVerdict (q : Char) (body expected : List Char) : Verdict :=
+  match denote q body, denote q (deTrigraph body) with
+  | none, _ => .bad
+  | some _, none => .badPre17
+  | some a, some b => if a == expected && b == expected then .ok else .changed
+
+/-- `"text"` followed by `pad` times `\0` -/
 def stringLiteral (text : List Char) (pad : Nat) : Verdict :=
-  match lexText false text pad with
-  | .bad => .bad
-  | v =>
-    match lexText true text pad with
-    | .bad => .badPre17
-    | .ok => v
-    | _ => if v == .ok then .changed else v
+  literalVerdict '"' (pastedText text ++ padding pad) (text ++ List.replicate pad (Char.ofNat 0))
 
 /-- `'c'` for a one-character constant / enumerator -/
 def charLiteral (text : List Char) : Verdict :=
   match text with
-  | [c] => if c == '\'' || c == '\\' || c == '\n' then .bad else .ok
+  | [c] => literalVerdict '\'' (pastedText [c]) [c]
   | _ => .bad
 
 /-! ## Sites -/
